@@ -50,6 +50,9 @@ theorem P.pure_apply {α} (a : α) (s : Str) : (pure a : P α) s = some (a, s) :
 theorem P.bind_apply {α β} (p : P α) (f : α → P β) (s : Str) :
     (p >>= f) s = match p s with | none => none | some (a, s') => f a s' := rfl
 
+theorem P.pure_bind_apply {α β} (a : α) (f : α → P β) (s : Str) :
+    ((pure a : P α) >>= f) s = f a s := rfl
+
 /-- `n` repetitions of `p` (the `for` loops of the load functions) -/
 def readN {α} (p : P α) : Nat → P (List α)
   | 0 => pure []
